@@ -315,6 +315,21 @@ pub fn honest_tape(prog: &Program, rng: &mut Rng) -> Tape {
     Tape(t)
 }
 
+thread_local! {
+    /// Expected public inputs (in emission = row order) of the last interpretation.
+    static PI_LOG: RefCell<Vec<Sc>> = const { RefCell::new(Vec::new()) };
+}
+
+fn pi_log(v: Sc) {
+    PI_LOG.with(|l| l.borrow_mut().push(v));
+}
+
+/// The public inputs the interpreter handed to the composer during the last
+/// `interpret` call on this thread (independent of the composer's own table).
+pub fn take_pi_log() -> Vec<Sc> {
+    PI_LOG.with(|l| std::mem::take(&mut *l.borrow_mut()))
+}
+
 struct Cursor<'a> {
     tape: &'a Tape,
     pos: usize,
@@ -343,6 +358,7 @@ impl<'a> Cursor<'a> {
 
 /// Run the program against a composer.
 pub fn interpret(prog: &Program, tape: &Tape, c: &mut Composer) -> Result<(), Error> {
+    PI_LOG.with(|l| l.borrow_mut().clear());
     let mut cur = Cursor { tape, pos: 0 };
     let mut s: Vec<Witness> = vec![Composer::ZERO, Composer::ONE];
     let mut p: Vec<WitnessPoint> = vec![WitnessPoint::from(Composer::IDENTITY)];
@@ -371,6 +387,7 @@ pub fn interpret(prog: &Program, tape: &Tape, c: &mut Composer) -> Result<(), Er
             Op::Const(k) => s.push(c.append_constant(*k)),
             Op::Public(_) => {
                 let v = cur.scalar();
+                pi_log(v);
                 s.push(c.append_public(v));
             }
             Op::EvalOut { q, a, b, d, pi } => {
@@ -385,7 +402,9 @@ pub fn interpret(prog: &Program, tape: &Tape, c: &mut Composer) -> Result<(), Er
                     .b(sr!(*b))
                     .d(sr!(*d));
                 if *pi {
-                    k = k.public(cur.scalar());
+                    let v = cur.scalar();
+                    pi_log(v);
+                    k = k.public(v);
                 }
                 if let Some(w) = c.append_evaluated_output(k) {
                     s.push(w);
@@ -394,14 +413,18 @@ pub fn interpret(prog: &Program, tape: &Tape, c: &mut Composer) -> Result<(), Er
             Op::GateAdd { l, r, f, c: qc, a, b, d, pi } => {
                 let mut k = Constraint::new().left(*l).right(*r).fourth(*f).constant(*qc).a(sr!(*a)).b(sr!(*b)).d(sr!(*d));
                 if *pi {
-                    k = k.public(cur.scalar());
+                    let v = cur.scalar();
+                    pi_log(v);
+                    k = k.public(v);
                 }
                 s.push(c.gate_add(k));
             }
             Op::GateMul { m, f, c: qc, a, b, d, pi } => {
                 let mut k = Constraint::new().mult(*m).fourth(*f).constant(*qc).a(sr!(*a)).b(sr!(*b)).d(sr!(*d));
                 if *pi {
-                    k = k.public(cur.scalar());
+                    let v = cur.scalar();
+                    pi_log(v);
+                    k = k.public(v);
                 }
                 s.push(c.gate_mul(k));
             }
@@ -420,6 +443,7 @@ pub fn interpret(prog: &Program, tape: &Tape, c: &mut Composer) -> Result<(), Er
             Op::AssertEqPublic { a, c: k } => {
                 let wa = sr!(*a);
                 let v = c[wa];
+                pi_log(v - *k);
                 c.assert_equal_constant(wa, *k, Some(v - *k));
             }
             Op::Boolean => {
@@ -491,7 +515,13 @@ pub fn interpret(prog: &Program, tape: &Tape, c: &mut Composer) -> Result<(), Er
                 tf.push(t);
             }
             Op::PointPublic => {
-                let pt = c.append_public_point(cur.point())?;
+                let ext = cur.point();
+                if ext.get_z() != Sc::zero() {
+                    let aff = JubJubAffine::from(ext);
+                    pi_log(aff.get_u());
+                    pi_log(aff.get_v());
+                }
+                let pt = c.append_public_point(ext)?;
                 let t = c.assert_torsion_free_point(pt);
                 p.push(pt);
                 tf.push(t);
@@ -545,6 +575,8 @@ pub fn interpret(prog: &Program, tape: &Tape, c: &mut Composer) -> Result<(), Er
             Op::PointAssertEqPublic(i) => {
                 let pt = pr!(*i);
                 let (u, v) = (c[*pt.x()], c[*pt.y()]);
+                pi_log(u);
+                pi_log(v);
                 c.assert_equal_public_point(pt, JubJubAffine::from_raw_unchecked(u, v))?;
             }
             Op::Filler(k) => {
@@ -556,6 +588,9 @@ pub fn interpret(prog: &Program, tape: &Tape, c: &mut Composer) -> Result<(), Er
                 let (wa, wb, wd) = (sr!(*a), sr!(*b), sr!(*d));
                 let (va, vb, vd) = (c[wa], c[wb], c[wd]);
                 let piv = if *pi { cur.scalar() } else { Sc::zero() };
+                if *pi {
+                    pi_log(piv);
+                }
                 // q_arith * (m ab + l a + r b + o c + f d + qc) + pi = 0
                 let rest = q[0] * va * vb + q[1] * va + q[2] * vb + q[4] * vd + q[5];
                 let qa_inv = Option::<Sc>::from(q_arith.invert()).unwrap_or(Sc::zero());
